@@ -109,7 +109,7 @@ OPW = np.array([0.26, 0.09, 0.09, 0.26, 0.10, 0.08, 0.07, 0.05])
 
 def shards(tier, seed):
     out = []
-    reps = 2 if tier == "quick" else 4
+    reps = 2 if tier == "quick" else 3
     for rep in range(reps):
         for d in (2, 3):
             for ip in range(2):
@@ -121,9 +121,28 @@ def shards(tier, seed):
 # ------------------------------------------------------------------------------------------------
 # independent dense delta operators (closed form)
 # ------------------------------------------------------------------------------------------------
+try:  # shared reference written for C06/C07 (closed-form deltas, distances formed in long double)
+    from ..ref import ib as _ib
+
+    _HAVE_IB = all(hasattr(_ib, n) for n in ("phi_cosine", "scaled_distances"))
+except ImportError:  # pragma: no cover - stand-alone fallback, same closed form
+    _ib, _HAVE_IB = None, False
+
+
 def phi_cosine(r):
+    """cosine 4-point delta function phi(r) = (1 + cos(pi r / 2)) / 4 on |r| < 2 (the default kernel type of the
+    communicators; VirtualBoundaryForcing never passes another one)"""
+    if _HAVE_IB:
+        return _ib.phi_cosine(r)
     r = np.abs(r)
     return np.where(r < 2.0, 0.25 * (1.0 + np.cos(0.5 * np.pi * r)), 0.0)
+
+
+def _scaled_distances(x_markers, n, dx, shift):
+    if _HAVE_IB:
+        return _ib.scaled_distances(x_markers, n, dx, shift)
+    coords = shift + dx * np.arange(n, dtype=np.float64)
+    return (coords[None, :] - np.asarray(x_markers, np.float64)[:, None]) / dx
 
 
 def axis_weights(X, shape, dx, shift):
@@ -132,9 +151,7 @@ def axis_weights(X, shape, dx, shift):
     d = len(shape)
     w, s = [], []
     for ax in range(d):
-        comp = d - 1 - ax
-        coords = shift + dx * np.arange(shape[ax], dtype=np.float64)
-        r = (coords[None, :] - np.asarray(X[comp], np.float64)[:, None]) / dx
+        r = _scaled_distances(X[d - 1 - ax], shape[ax], dx, shift)
         w.append(phi_cosine(r))
         s.append((np.abs(r) < 2.0).astype(np.float64))
     return w, s
@@ -573,4 +590,4 @@ def run_shard(sh, rec):
         run_history(rec, rng, sh, h, length)
 
 
-N_HIST = {"quick": 19, "thorough": 200}
+N_HIST = {"quick": 19, "thorough": 250}
